@@ -142,6 +142,10 @@ def view (s : St) : List String → Option String
 def handle (s : St) (line : String) : St × Option String :=
   match words line with
   | "W" :: rest => (initOf rest, some (" ".intercalate ("W" :: rest)))
+  | ["O", n, "upgrade"] =>
+      -- the owner re-runs the contract's `upgrade` function on the DEPLOYED farm: `first_week_start_epoch().set_if_empty`
+      -- and `try_set_farm_position_migration_nonce` (returns at once: the nonce was set by `init`) — no modelled cell moves
+      (s, some s!"R {n} ok tok=0:0 rew=0 farming=0 b=0 | {showState s}")
   | "O" :: n :: rest =>
       match (parseOp rest).bind (step s) with
       | some (s', o) =>
